@@ -170,6 +170,22 @@ def r10_4(run, model):
                     for it, _m in model.all_items(RUNTIME):
                         if it["k"] == "Const" and it.get("name") == a["segs"][0] and (it.get("expr") or {}).get("k") == "Lit":
                             extra.append(it["expr"]["value"])
+            # a verb handed down as a run-time value (a parameter fed from an options struct whose Default names it): when the builder
+            # is given a non-literal verb and the module names exactly one verb in a struct-literal field, that is the verb
+            if not extra and not verbs and any(a["k"] == "Path" for a in c["args"][2:]):
+                named = set()
+                for g in model.fns(RUNTIME):
+                    if g.body is None:
+                        continue
+                    for st in S.find(g.body, "Struct"):
+                        if st["segs"][0] in ("goast", "goty"):
+                            continue     # a Go syntax node is output, not a setting
+                        for fl in st.get("fields", []):
+                            for x in S.walk(fl["expr"]):
+                                if x["k"] == "Lit" and x.get("lit") == "Str" and str(x["value"]).startswith("%"):
+                                    named.add(x["value"])
+                if len(named) == 1:
+                    extra.append(next(iter(named)))
             verb = extra[0] if extra else (verbs[0] if len(set(verbs)) == 1 else None)
             is_float = "Float" in gty
             ok = verb is not None and ((verb in ("%d",)) != is_float)
